@@ -309,7 +309,7 @@ fn raw_case<const N: usize>(ctx: &mut Ctx, idx: usize) {
 }
 
 pub fn run(ctx: &mut Ctx) {
-    let reps = if ctx.thorough() { 60 } else { 12 };
+    let reps = if ctx.thorough() { 300 } else { 12 };
     let mut idx = 0;
     for _ in 0..reps {
         for &n in NS.iter() {
